@@ -144,6 +144,13 @@ func c08Setup(t *testing.T, tr *Trace, rng *Rng, variant int) *c08Env {
 		if err != nil {
 			t.Fatal(err)
 		}
+		if isolated {
+			// AddAssetRatesParams (the single-record proposal handler) drops IsIsolated; the combined proposal AddAssetRatesPoolPairs
+			// stores it — store the record the way that handler does
+			r, _ := k.GetAssetRatesParams(ctx, asset)
+			r.IsIsolated = true
+			k.SetAssetRatesParams(ctx, r)
+		}
 	}
 	rate(a3, "0.8", "0.002", "0.06", "0.6", true, "0.04", "0.04", "0.06", "0.8", "0.85", "0.025", "0.025", "0.1", id("ucasset3"), false)
 	rate(a1, "0.75", "0.002", "0.07", "1.25", false, "0.0", "0.0", "0.0", "0.7", "0.75", "0.05", "0.05", "0.2", id("ucasset1"), false)
@@ -761,27 +768,47 @@ func (e *c08Env) opSetPrice(asset, twa uint64) {
 	e.emit("setPrice", "ok", u(asset), u(twa))
 }
 
-// opLiquidate runs the real V2 liquidation of one borrow (LiquidateIndividualBorrow, as the sweep and MsgLiquidate do) on a
-// cache context; a line is emitted only when the borrow was actually handed over (the decision itself is property C09).
-func (e *c08Env) opLiquidate(borrowID uint64) bool {
+// liqRates: the rates CalculateBorrowInterestForLiquidation is about to use for the borrow (inputs of the model's accrual)
+func (e *c08Env) liqRates(b lendtypes.BorrowAsset) string {
+	k := e.app.LendKeeper
+	rates := "-"
+	try(func() {
+		pair, _ := k.GetLendPair(e.ctx, b.PairID)
+		rr, err := k.GetReserveRate(e.ctx, pair.AssetOutPoolID, pair.AssetOut)
+		apr, err2 := k.GetBorrowAPRByAssetID(e.ctx, pair.AssetOutPoolID, pair.AssetOut, b.IsStableBorrow)
+		if err == nil && err2 == nil {
+			rates = apr.BigInt().String() + ":" + rr.BigInt().String()
+		}
+	})
+	return rates
+}
+
+// opLiquidate runs the real V2 liquidation of one borrow on a cache context — by the keeper entry point the sweep calls
+// (LiquidateIndividualBorrow, via = 0) or by the user message MsgLiquidateInternalKeeper (via = 1: ValidateBasic + routed handler);
+// a line is emitted only when the borrow was actually handed over (the decision itself is property C09).
+func (e *c08Env) opLiquidate(borrowID uint64, via int) bool {
 	k := e.app.LendKeeper
 	before, found := k.GetBorrow(e.ctx, borrowID)
 	if !found || before.IsLiquidated {
 		return false
 	}
-	// the rates CalculateBorrowInterestForLiquidation uses (inputs of the model's accrual), read before the call
-	rates := "-"
-	try(func() {
-		pair, _ := k.GetLendPair(e.ctx, before.PairID)
-		rr, err := k.GetReserveRate(e.ctx, pair.AssetOutPoolID, pair.AssetOut)
-		apr, err2 := k.GetBorrowAPRByAssetID(e.ctx, pair.AssetOutPoolID, pair.AssetOut, before.IsStableBorrow)
-		if err == nil && err2 == nil {
-			rates = apr.BigInt().String() + ":" + rr.BigInt().String()
-		}
-	})
+	rates := e.liqRates(before)
 	cctx, write := e.ctx.CacheContext()
 	var err error
-	panicked, pmsg := try(func() { err = e.app.NewliqKeeper.LiquidateIndividualBorrow(cctx, borrowID, "", false) })
+	var panicked bool
+	var pmsg string
+	if via == 1 {
+		msg := liqV2types.NewMsgLiquidateInternalKeeperRequest(e.user().addr, 1, borrowID)
+		if verr := msg.ValidateBasic(); verr != nil {
+			e.tr.Count("liquidate:msg:basic")
+			return false
+		}
+		h := e.app.MsgServiceRouter().Handler(msg)
+		panicked, pmsg = try(func() { _, err = h(cctx, msg) })
+		e.tr.Count("liquidate:viaMsg")
+	} else {
+		panicked, pmsg = try(func() { err = e.app.NewliqKeeper.LiquidateIndividualBorrow(cctx, borrowID, "", false) })
+	}
 	if panicked || err != nil {
 		if err != nil {
 			pmsg = err.Error()
@@ -800,6 +827,34 @@ func (e *c08Env) opLiquidate(borrowID uint64) bool {
 	write()
 	e.emit("handover", "ok", u(borrowID), after.InterestAccumulated.BigInt().String(), rates)
 	return true
+}
+
+// opSweep runs the real sweep LiquidateBorrows (what the BeginBlocker of x/liquidationsV2 calls) with a batch size of one: it walks
+// the id list GetBorrows — the concatenation of the BorrowIds lists of the pool-asset records — from its stored offset. At most one
+// borrow is handed over per call; the line is the same hand-over line.
+func (e *c08Env) opSweep() bool {
+	k := e.app.LendKeeper
+	e.app.NewliqKeeper.SetParams(e.ctx, liqV2types.NewParams(1))
+	rates := map[uint64]string{}
+	for _, b := range k.GetAllBorrow(e.ctx) {
+		if !b.IsLiquidated {
+			rates[b.ID] = e.liqRates(b)
+		}
+	}
+	var err error
+	if p, _ := try(func() { err = e.app.NewliqKeeper.LiquidateBorrows(e.ctx, 1) }); p || err != nil {
+		e.tr.Count("sweep:fail")
+		return false
+	}
+	e.tr.Count("sweep")
+	for _, b := range k.GetAllBorrow(e.ctx) {
+		if r, was := rates[b.ID]; was && b.IsLiquidated {
+			e.tr.Count("sweep:handover")
+			e.emit("handover", "ok", u(b.ID), b.InterestAccumulated.BigInt().String(), r)
+			return true
+		}
+	}
+	return false
 }
 
 func (e *c08Env) advance(sec int64) {
@@ -1531,9 +1586,22 @@ func (e *c08Env) genPrice() {
 
 func (e *c08Env) genLiquidate() {
 	bs := e.app.LendKeeper.GetAllBorrow(e.ctx)
+	if e.rng.Chance(25) {
+		// the real sweep, one borrow per call, once around the id list
+		for i := 0; i <= len(bs); i++ {
+			if e.opSweep() {
+				e.tr.Count("liquidate:handover")
+			}
+		}
+		return
+	}
 	for _, b := range bs {
 		if !b.IsLiquidated {
-			if e.opLiquidate(b.ID) {
+			via := 0
+			if e.rng.Chance(30) {
+				via = 1
+			}
+			if e.opLiquidate(b.ID, via) {
 				e.tr.Count("liquidate:handover")
 			}
 		}
@@ -1706,6 +1774,101 @@ func c08CorpusAuctionClose(t *testing.T, tr *Trace, rng *Rng, variant int) {
 	e.opWithdraw(u3, 2, e.denomOf[a1], n(1_000_000))
 }
 
+// c08CorpusEMode — directed coverage: pair 5 (A3 → A2, pool 1) is an e-mode pair (e-LTV 0.9, e-threshold 0.95, e-penalty 0.02): a
+// borrow above the normal LTV, a draw to the e-LTV limit, liquidation under the e-mode threshold, and the close, whose penalty is the
+// e-mode penalty while the hand-over charged the normal one (the fee of the locked vault).
+func c08CorpusEMode(t *testing.T, tr *Trace, rng *Rng) {
+	e := c08Setup(t, tr, rng, 0)
+	e.cfgLines()
+	tr.Count("corpus")
+	a2, a3 := e.base[1], e.base[2]
+	u1, u2, u4 := e.users[0], e.users[1], e.users[3]
+	n := func(x int64) sdk.Int { return sdk.NewInt(x) }
+	e.fundAppReserve(a2, n(20_000_000_000))
+	e.opLend(u2, a2, e.denomOf[a2], n(50_000_000_000), 1, e.appOK) // lend 1
+	e.opLend(u1, a3, e.denomOf[a3], n(10_000_000_000), 1, e.appOK) // lend 2
+	pair, _ := e.app.LendKeeper.GetLendPair(e.ctx, 5)
+	max := e.maxLoan(a3, n(8_000_000_000), a2, e.pairLTV(pair), sdk.ZeroInt())
+	e.opBorrow(u1, 2, 5, false, sdk.Coin{Denom: e.cDenom(a3), Amount: n(8_000_000_000)}, e.coin(a2, max.AddRaw(1))) // one above the e-LTV: refused
+	e.opBorrow(u1, 2, 5, false, sdk.Coin{Denom: e.cDenom(a3), Amount: n(8_000_000_000)}, e.coin(a2, max.MulRaw(95).QuoRaw(100)))
+	e.advance(86400)
+	b, _ := e.app.LendKeeper.GetBorrow(e.ctx, 1)
+	room := max.Sub(b.AmountOut.Amount).SubRaw(1_000_000)
+	e.opDraw(u1, 1, e.coin(a2, room))
+	e.opDraw(u1, 1, e.coin(a2, n(5_000_000))) // beyond the e-LTV
+	e.advance(200 * 86400)
+	e.opCalc(u1)
+	twa, _ := e.app.MarketKeeper.GetTwa(e.ctx, a3)
+	e.opSetPrice(a3, twa.Twa*8/10)
+	e.opLiquidate(1, 1)
+	e.advance(300)
+	for _, a := range e.lendAuctions() {
+		e.opBid(u4, a, a.auc.DebtToken.Amount)
+	}
+	e.opCalc(u2)
+}
+
+// c08CorpusIsolated — directed coverage: A4 is isolated collateral (variant 4): a user who borrows against it cannot open a second
+// borrow against another position of that asset, and nobody is stopped by somebody else's borrow.
+func c08CorpusIsolated(t *testing.T, tr *Trace, rng *Rng) {
+	e := c08Setup(t, tr, rng, 4)
+	e.cfgLines()
+	tr.Count("corpus")
+	a1, a3, a4 := e.base[0], e.base[2], e.base[3]
+	u1, u2, u4 := e.users[0], e.users[1], e.users[3]
+	n := func(x int64) sdk.Int { return sdk.NewInt(x) }
+	e.opFundModule(u4, 2, a3, e.coin(a3, n(10_000_000_000)))
+	e.opFundModule(u4, 2, a1, e.coin(a1, n(10_000_000_000)))
+	e.opLend(u1, a4, e.denomOf[a4], n(5_000_000_000), 2, e.appOK) // lend 1
+	e.opLend(u2, a4, e.denomOf[a4], n(5_000_000_000), 2, e.appOK) // lend 2
+	cA4 := func(x int64) sdk.Coin { return sdk.Coin{Denom: e.cDenom(a4), Amount: n(x)} }
+	e.opBorrow(u1, 1, 7, false, cA4(1_000_000_000), e.coin(a3, n(100_000_000)))          // borrow 1 (A4 → A3)
+	e.opBorrow(u1, 1, 8, false, cA4(1_000_000_000), e.coin(a1, n(100_000_000)))          // second pair on the isolated asset: refused
+	e.opBorrow(u1, 1, 7, true, cA4(500_000_000), e.coin(a3, n(10_000_000)))              // same pair: deposit-and-draw, allowed
+	e.opBorrow(u2, 2, 8, e.stableOK(a4), cA4(1_000_000_000), e.coin(a1, n(100_000_000))) // another user is not affected
+	e.opCloseBorrow(u1, 1)
+	e.opBorrow(u1, 1, 8, false, cA4(1_000_000_000), e.coin(a1, n(100_000_000))) // after the close it works
+}
+
+// c08CorpusSecondTransit — directed coverage of the SECOND transit asset: pool 1 is short of its first transit asset (A3 is lent out),
+// so a cross-pool borrow bridges A1; a stable-rate borrow on that path, a collateral top-up (DepositBorrowAsset's second branch), the
+// liquidation's third condition and the close that sends the bridged A1 back.
+func c08CorpusSecondTransit(t *testing.T, tr *Trace, rng *Rng) {
+	e := c08Setup(t, tr, rng, 0)
+	e.cfgLines()
+	tr.Count("corpus")
+	a1, a2, a3, a4 := e.base[0], e.base[1], e.base[2], e.base[3]
+	u1, u2, u3, u4 := e.users[0], e.users[1], e.users[2], e.users[3]
+	n := func(x int64) sdk.Int { return sdk.NewInt(x) }
+	e.fundAppReserve(a4, n(20_000_000_000))
+	e.opLend(u1, a3, e.denomOf[a3], n(10_000_000_000), 1, e.appOK) // lend 1: the collateral (stable borrowing enabled for A3)
+	e.opLend(u2, a2, e.denomOf[a2], n(60_000_000_000), 1, e.appOK) // lend 2
+	e.opLend(u3, a1, e.denomOf[a1], n(20_000_000_000), 1, e.appOK) // lend 3: pool 1 holds plenty of the second transit asset
+	e.opLend(u4, a4, e.denomOf[a4], n(30_000_000_000), 2, e.appOK) // lend 4: what is borrowed
+	// u2 borrows nearly all A3 of pool 1 (pair 1: A2 → A3)
+	e.opBorrow(u2, 2, 1, false, sdk.Coin{Denom: e.cDenom(a2), Amount: n(40_000_000_000)}, e.coin(a3, n(9_999_000_000)))
+	// u1: cross-pool stable borrow (pair 14: A3 → A4 of pool 2) — the first transit asset is short, A1 is bridged
+	loan := e.maxLoan(a3, n(4_000_000_000), a4, c08dec("0.8"), sdk.ZeroInt()).MulRaw(66).QuoRaw(100)
+	e.opBorrow(u1, 1, 14, true, sdk.Coin{Denom: e.cDenom(a3), Amount: n(4_000_000_000)}, e.coin(a4, loan))
+	e.advance(30 * 86400)
+	e.opDepositBorrow(u1, 2, sdk.Coin{Denom: e.cDenom(a3), Amount: n(500_000_000)})
+	e.opDraw(u1, 2, e.coin(a4, n(1_000_000)))
+	e.advance(100 * 86400)
+	e.opCalc(u1)
+	twa, _ := e.app.MarketKeeper.GetTwa(e.ctx, a3)
+	e.opSetPrice(a3, twa.Twa*55/100)
+	e.opSweep() // pool 1 cannot hand the collateral over: its A3 is lent out (the liquidation is refused, nothing changes)
+	e.opFundModule(u4, 1, a3, e.coin(a3, n(10_000_000_000)))
+	for i := 0; i < 4; i++ {
+		e.opSweep()
+	}
+	e.advance(300)
+	for _, a := range e.lendAuctions() {
+		e.opBid(u3, a, a.auc.DebtToken.Amount)
+	}
+	e.opCalc(u1)
+}
+
 // ---------------------------------------------------------------------------------------------- test
 
 func TestC08(t *testing.T) {
@@ -1718,6 +1881,9 @@ func TestC08(t *testing.T) {
 	c08CorpusGuards(t, tr, rng)
 	c08CorpusAuctionClose(t, tr, rng, 0)
 	c08CorpusAuctionClose(t, tr, rng, 2)
+	c08CorpusEMode(t, tr, rng)
+	c08CorpusIsolated(t, tr, rng)
+	c08CorpusSecondTransit(t, tr, rng)
 	seqs := scale(24, 300)
 	maxOps := scale(90, 160)
 	for s := 0; s < seqs; s++ {
@@ -1832,12 +1998,25 @@ func TestC08(t *testing.T) {
 			case p < 99:
 				usr := e.user()
 				a := e.base[rng.Intn(4)]
-				e.opFundReserve(usr, a, e.coin(a, e.rint(1, 2_000_000_000)))
+				c := e.coin(a, e.rint(1, 2_000_000_000))
+				if bad {
+					c.Denom = e.denomOf[e.base[rng.Intn(4)]] // maybe another asset's denomination
+				}
+				e.opFundReserve(usr, a, c)
 			default:
 				usr := e.user()
 				a := e.base[rng.Intn(4)]
 				ps := e.poolsOf(a)
-				e.opFundModule(usr, ps[rng.Intn(len(ps))], a, e.coin(a, e.rint(1, 2_000_000_000)))
+				c := e.coin(a, e.rint(1, 2_000_000_000))
+				pool := ps[rng.Intn(len(ps))]
+				if bad {
+					if rng.Chance(50) {
+						c.Denom = e.denomOf[e.base[rng.Intn(4)]]
+					} else {
+						pool = uint64(rng.Range(0, 4))
+					}
+				}
+				e.opFundModule(usr, pool, a, c)
 			}
 		}
 		// wind down: closing bids on the auctions that are still open, then the owners look at their positions again
